@@ -15,6 +15,8 @@ func init() {
 	vHarnesses["VerifC14Errors"] = VerifC14Errors
 	vHarnesses["VerifC14Canary"] = VerifC14Canary
 	vHarnesses["VerifC14Translate"] = VerifC14Translate
+	vHarnesses["VerifC14SetKeys"] = VerifC14SetKeys
+	vHarnesses["VerifC14GitDriver"] = VerifC14GitDriver
 	vHarnesses["VerifC14DiffV1"] = VerifC14DiffV1
 	vHarnesses["VerifC14PatchV1"] = VerifC14PatchV1
 }
@@ -430,4 +432,69 @@ func VerifC14Canary() {
 	code := vCLIRun([]string{"a.json", "b.json"})
 	vCLIReset()
 	vAssert(code == 0, "canary: jd always exits 0")
+}
+
+func vKeyedDoc(max int) jd.JsonNode {
+	n := vChoice(max + 1)
+	arr := make([]interface{}, n)
+	ids := make([]float64, n)
+	for i := range arr {
+		ids[i] = vF64()
+		for j := 0; j < i; j++ {
+			vAssume(ids[i] != ids[j])
+		}
+		m := map[string]interface{}{"id": ids[i]}
+		if vChoice(2) == 1 {
+			m["v"] = vF64()
+		}
+		arr[i] = m
+	}
+	return vNode(arr)
+}
+
+// VerifC14SetKeys: -setkeys id (also with blanks around the key) maps to SetKeys("id").
+func VerifC14SetKeys() {
+	a, b := vKeyedDoc(vParam("KN", 2)), vKeyedDoc(vParam("KM", 1))
+	opts := []jd.Option{jd.SetKeys("id")}
+	d := a.Diff(b, opts...)
+	want := d.Render()
+	vCLISetFile("a.json", a.Json())
+	vCLISetFile("b.json", b.Json())
+	key := [...]string{"id", " id ", "id,"}[vChoice(3)]
+	code := vCLIRun([]string{"-setkeys", key, "a.json", "b.json"})
+	if key == "id," {
+		vAssert(code == 2, "an empty set key is not rejected with status 2")
+		vCover("c14.setkeys.bad")
+		vCLIReset()
+		return
+	}
+	if a.Equals(b, opts...) {
+		vAssert(code == 0, "-setkeys: inputs are equal but the exit status is not 0")
+	} else {
+		vAssert(code == 1, "-setkeys: inputs differ but the exit status is not 1")
+	}
+	vAssert(vCLIStdout() == want, "-setkeys: stdout differs from the library rendering")
+	vCover("c14.setkeys")
+	vCLIReset()
+}
+
+// VerifC14GitDriver: -git-diff-driver takes git's seven arguments, prints the diff of the
+// old and new file and exits 0 whether or not they differ.
+func VerifC14GitDriver() {
+	a, b := vDoc(), vDoc()
+	vCLISetFile("old.json", a.Json())
+	vCLISetFile("new.json", b.Json())
+	n := [...]int{7, 6}[vChoice(2)]
+	argv := []string{"-git-diff-driver", "path", "old.json", "oldhex", "100644", "new.json", "newhex", "100644"}[:n+1]
+	code := vCLIRun(argv)
+	if n != 7 {
+		vAssert(code == 2, "git diff driver with the wrong number of arguments does not exit 2")
+		vCover("c14.gitdriver.bad")
+		vCLIReset()
+		return
+	}
+	vAssert(code == 0, "git diff driver does not exit 0")
+	vAssert(vCLIStdout() == a.Diff(b).Render(), "git diff driver output differs from the library rendering")
+	vCover("c14.gitdriver")
+	vCLIReset()
 }
